@@ -1,1 +1,82 @@
-Require Import Base Solve.
+(* C05 -- create_solution meets every stated constraint or refuses. *)
+Require Import Base Units UnitsThm Contents Container ContainerThm ContainerThm2 Dilute Solve SolveThm HistoryThm.
+
+(* the exact solver is sound: whatever it returns satisfies every row it was given *)
+Theorem C05_solver_sound : forall n (rows : list row) (xs : vec),
+  (forall r, In r rows -> length (fst r) = n) -> gauss n rows = Some xs ->
+  length xs = n /\ forall r, In r rows -> dot (fst r) xs == snd r.
+Proof. exact gauss_sound. Qed.
+Print Assumptions C05_solver_sound.
+
+(* the rows mean what the chemistry says: residual zero <=> the stated value holds for the mixture with amounts xs *)
+Theorem C05_rows_meaning : forall subs xs, length xs = length subs ->
+  (forall i s c, (i < length subs)%nat ->
+     dot (fst (conc_row subs i s c)) xs - snd (conc_row subs i s c) == cval c * mix_total subs xs (cden c) - cone s (cnum c) * nth i xs 0) /\
+  (forall i s q, (i < length subs)%nat ->
+     dot (fst (qty_row subs i s q)) xs - snd (qty_row subs i s q) == cone s (qbase q) * nth i xs 0 - qv q) /\
+  (forall q, dot (fst (total_row subs q)) xs - snd (total_row subs q) == mix_total subs xs (qbase q) - qv q).
+Proof.
+  intros subs xs L. split; [intros; apply conc_row_meaning; assumption|]. split; [intros; apply qty_row_meaning; assumption | intros; apply total_row_meaning].
+Qed.
+Print Assumptions C05_rows_meaning.
+
+(* every accepted request: strictly positive amounts, the rows of the solve exact, every row within the residual tolerance *)
+Theorem C05_accepted_meets_rows : forall solutes solvent m xs,
+  solve_solution solutes solvent m = Ok xs ->
+  exists rows, system solutes solvent m = Ok rows /\ length xs = S (length solutes) /\
+    (forall x, In x xs -> 0 < x) /\
+    (forall r, In r (firstn (S (length solutes)) rows) -> dot (fst r) xs == snd r) /\
+    (forall r, In r rows -> Qabs (dot (fst r) xs - snd r) <= (1 # 1000000) * (dot_abs (fst r) xs + Qabs (snd r))).
+Proof. exact solve_solution_sound. Qed.
+Print Assumptions C05_accepted_meets_rows.
+
+(* concentration + total: the returned container contains exactly solutes + solvent, all positive, every stated concentration
+   holds in its own unit as read back from the contents, and the total quantity holds -- any number of solutes, any kinds,
+   any unit pairs *)
+Theorem C05_conc_total : forall cf name solutes solvent cs t c,
+  NoDup (solutes ++ [solvent]) -> Forall wf_subst (solutes ++ [solvent]) ->
+  create_solution cf name solutes solvent (MConcTotal cs t) = Ok c ->
+  keys (cont c) = solutes ++ [solvent] /\ (forall i s, nth_error (solutes ++ [solvent]) i = Some s -> 0 < get s (cont c)) /\
+  (forall i s ci, nth_error solutes i = Some s -> nth_error cs i = Some ci ->
+     conv_stored cf s (get s (cont c)) (P0, cnum ci) == cval ci * total_in cf (cont c) (P0, cden ci)) /\
+  total_in cf (cont c) (P0, qbase t) == qv t.
+Proof. intros cf name solutes solvent cs t c Hnd Hwf. exact (create_solution_conc_total cf name solutes solvent Hnd Hwf cs t c). Qed.
+Print Assumptions C05_conc_total.
+Theorem C05_qty_total : forall cf name solutes solvent qs t c,
+  NoDup (solutes ++ [solvent]) -> Forall wf_subst (solutes ++ [solvent]) ->
+  create_solution cf name solutes solvent (MQtyTotal qs t) = Ok c ->
+  keys (cont c) = solutes ++ [solvent] /\ (forall i s, nth_error (solutes ++ [solvent]) i = Some s -> 0 < get s (cont c)) /\
+  (forall i s qi, nth_error solutes i = Some s -> nth_error qs i = Some qi -> conv_stored cf s (get s (cont c)) (P0, qbase qi) == qv qi) /\
+  total_in cf (cont c) (P0, qbase t) == qv t.
+Proof. intros cf name solutes solvent qs t c Hnd Hwf. exact (create_solution_qty_total cf name solutes solvent Hnd Hwf qs t c). Qed.
+Print Assumptions C05_qty_total.
+(* concentration + solute quantity: all concentrations and the first quantity exactly; the remaining quantities only within the
+   tolerance of the residual test (C05_accepted_meets_rows) -- the full statement for them is not proved: partial *)
+Theorem C05_conc_qty_partial : forall cf name solutes solvent cs qs c,
+  NoDup (solutes ++ [solvent]) -> Forall wf_subst (solutes ++ [solvent]) ->
+  create_solution cf name solutes solvent (MConcQty cs qs) = Ok c ->
+  keys (cont c) = solutes ++ [solvent] /\ (forall i s, nth_error (solutes ++ [solvent]) i = Some s -> 0 < get s (cont c)) /\
+  (forall i s ci, nth_error solutes i = Some s -> nth_error cs i = Some ci ->
+     conv_stored cf s (get s (cont c)) (P0, cnum ci) == cval ci * total_in cf (cont c) (P0, cden ci)) /\
+  (forall s q0, nth_error solutes 0 = Some s -> nth_error qs 0 = Some q0 -> conv_stored cf s (get s (cont c)) (P0, qbase q0) == qv q0).
+Proof. intros cf name solutes solvent cs qs c Hnd Hwf. exact (create_solution_conc_qty_partial cf name solutes solvent Hnd Hwf cs qs c). Qed.
+Print Assumptions C05_conc_qty_partial.
+
+(* container solvent: the depleted container and the solution both satisfy the invariant (nothing negative), and the solvent portion
+   is a transfer out of it, so C01 / C02 apply: nothing lost, uniform aliquot *)
+Theorem C05_container_solvent : forall cf name solutes k m k' c,
+  Forall wf_subst solutes -> Inv cf k -> create_solution_c cf name solutes k m = Ok (k', c) -> Inv cf k' /\ Inv cf c.
+Proof. exact create_solution_c_inv. Qed.
+Print Assumptions C05_container_solvent.
+Theorem C05_container_solvent_is_transfer : forall cf name solutes k m k' c,
+  create_solution_c cf name solutes k m = Ok (k', c) ->
+  exists fs xs res, fake_solvent cf k = Ok fs /\ solve_solution solutes fs m = Ok xs /\
+    make_container cf name None (map2 (fun s x => (s, amount_qty s x)) solutes xs) = Ok res /\
+    transfer cf k res {| qval := last xs 0; qpfx := P0; qbase := BMol |} = Ok (k', c).
+Proof.
+  intros cf name solutes k m k' c. unfold create_solution_c, bind.
+  destruct (fake_solvent cf k) as [fs|] eqn:E1; [|discriminate]. destruct (solve_solution solutes fs m) as [xs|] eqn:E2; [|discriminate].
+  destruct (make_container cf name None (map2 (fun s x => (s, amount_qty s x)) solutes xs)) as [res|] eqn:E3; [|discriminate].
+  intros H. exists fs, xs, res. split; [reflexivity|]. split; [exact E2|]. split; [exact E3 | exact H].
+Qed.
+Print Assumptions C05_container_solvent_is_transfer.
